@@ -358,6 +358,10 @@ func genItem(r *rng, depth int, out *[]byte, tagged bool) {
 
 func genCborDec(tier string, seed uint64) {
 	r := &rng{s: seed}
+	for _, hx := range []string{"c1f7", "d84df7", "82c1f701", "a1616bc1f7", "9fc1f7ff", "f7", "81f7", "c1f6"} {
+		emit("cbordec 1 %s", hx)
+		emit("cbordec 0 %s", hx)
+	}
 	// 0. large definite strings, whole and cut short at several points (bulk reads past the reader's first buffer sizes)
 	for _, major := range []byte{0x40, 0x60} {
 		for _, n := range []int{65535, 65536, 65537, 131072, 200000} {
